@@ -130,6 +130,9 @@ func runShard(args []string) (code int) {
 	}()
 	if c.Scenarios != nil {
 		scs := c.Scenarios(*tier)
+		for _, sc := range scs {
+			checks.ApplyConfigVariant(sc)
+		}
 		ex := explore.New(deadline)
 		// thorough tier: a first pass explores every scenario of the shard with its bound lowered to 2, the second
 		// pass with the full bound; if the budget ends during the second pass every scenario has still been covered
@@ -187,6 +190,7 @@ func runShard(args []string) (code int) {
 				ex.Stats.Capped = append(ex.Stats.Capped, "generator stopped at "+sc.Name)
 				return false
 			}
+			checks.ApplyConfigVariant(sc)
 			ex.Explore(sc)
 			return true
 		})
@@ -457,6 +461,7 @@ type replayFile struct {
 func findScenario(c *checks.Check, tier, name string) *world.Scenario {
 	if c.FromName != nil {
 		if sc := c.FromName(name); sc != nil {
+			checks.ApplyConfigVariant(sc)
 			return sc
 		}
 	}
@@ -466,6 +471,7 @@ func findScenario(c *checks.Check, tier, name string) *world.Scenario {
 	for _, t := range []string{tier, "quick", "thorough"} {
 		for _, sc := range c.Scenarios(t) {
 			if sc.Name == name {
+				checks.ApplyConfigVariant(sc)
 				return sc
 			}
 		}
